@@ -10,7 +10,10 @@ import SonicSpec.Model.OwnHeap
 namespace SonicSpec.Driver.Own
 open SonicSpec SonicSpec.Own
 
-/-! ### values on the wire:  n t f b  i<dec>;  s<hex>;  x<count>,<hex>;  [v*]  m<hex>;v  r<str><[str*]><int> -/
+/-! ### values on the wire:  n t f b  i<dec>;  s<hex>;  x<count>,<hex>;  [v*]  m<hex>;v  r<str><[str*]><int>
+    j<w><dec>;  (an integer of Go width w = a..h: int8 int16 int32 int64 uint8 uint16 uint32 uint64)
+    q<w><dec>,<dec>,...;  (a slice of such integers)   k<dec>;*8<t|f>  (struct{A int8 .. H uint64; T bool})
+    F<bits>; G<bits>;  floats - not modelled (the driver answers `unsupported`) -/
 
 def isDigit (c : Char) : Bool := c ≥ '0' && c ≤ '9'
 
@@ -52,9 +55,53 @@ def parseStrList : Nat → List Char → List Bytes → Option (List Bytes × Li
     let (s, rest) ← parseStr cs
     parseStrList f rest (s :: acc)
 
+def isWidth (c : Char) : Bool := c ≥ 'a' && c ≤ 'h'
+
+def splitComma (cs : List Char) : List (List Char) :=
+  (String.ofList cs).splitOn "," |>.map String.toList
+
+def intsVals : List Int → Vals
+  | [] => .nil
+  | i :: r => .cons (.int i) (intsVals r)
+
+/-- eight `<dec>;` fields -/
+def parseInts : Nat → List Char → List Int → Option (List Int × List Char)
+  | 0, cs, acc => some (acc.reverse, cs)
+  | n + 1, cs, acc => do
+    let (d, rest) ← takeUntil ';' cs []
+    let i ← intOf d
+    parseInts n rest (i :: acc)
+
+def asciiBytes (s : String) : Bytes := s.toUTF8.toList
+
+def ints8Text (xs : List Int) (t : Bool) : Bytes :=
+  let names := ["A", "B", "C", "D", "E", "F", "G", "H"]
+  let fields := (names.zip xs).map fun (n, i) => asciiBytes ("\"" ++ n ++ "\":") ++ decInt i
+  [123] ++ (fields.intersperse [44]).flatten ++ asciiBytes ",\"T\":" ++ (if t then litTrue else litFalse) ++ [125]
+
 mutual
 def parseVal : Nat → List Char → Option (Val × List Char)
   | 0, _ => none
+  | _ + 1, 'j' :: w :: r =>
+    if isWidth w then do
+      let (d, rest) ← takeUntil ';' r []
+      let i ← intOf d
+      some (.int i, rest)
+    else none
+  | _ + 1, 'q' :: w :: r =>
+    if isWidth w then do
+      let (d, rest) ← takeUntil ';' r []
+      if d.isEmpty then some (.arr .nil, rest)
+      else
+        let is ← (splitComma d).mapM intOf
+        some (.arr (intsVals is), rest)
+    else none
+  | _ + 1, 'k' :: r => do
+    let (is, r1) ← parseInts 8 r []
+    match r1 with
+    | 't' :: rest => some (.lit (ints8Text is true), rest)
+    | 'f' :: rest => some (.lit (ints8Text is false), rest)
+    | _ => none
   | _ + 1, 'n' :: r => some (.null, r)
   | _ + 1, 't' :: r => some (.bool true, r)
   | _ + 1, 'f' :: r => some (.bool false, r)
@@ -263,12 +310,24 @@ def runHtmlEsc (cap : Nat) (prior src : Bytes) : String :=
   | .error _ => "model=fault"
   | .ok sb => s!"model={hexArg sb.bytes}"
 
-/-- which decoding entry points copy (the `copy` flag of `opDecode`) -/
+/-- which decoding calls must not leave anything referring to the caller's input (the `copy` flag of
+    `opDecode`): Unmarshal([]byte) and Get([]byte) under every configuration, and the string entry
+    points when the configuration carries CopyString.  `<entry>.<cfg>.<dest>` -/
 def copies (api : String) : Option Bool :=
-  if api == "unmarshal" || api == "get" || api == "copystring" || api == "decoder_copystring" ||
-     api == "getcopy" then some true
-  else if api == "unmarshalstring" || api == "getfromstring" then some false
-  else none
+  match api.splitOn "." with
+  | [entry, cfg, _] =>
+    let cs := cfg == "std" || cfg == "cs" || cfg == "csnum"
+    if entry == "unmarshal" || entry == "get" || entry == "getcopy" then some true
+    else if entry == "unmarshalstring" || entry == "decoder" then some cs
+    else if entry == "getref" || entry == "getfromstring" then some false
+    else none
+  | [old] =>
+    if old == "unmarshal" || old == "unmarshal_t" || old == "unmarshal_std" || old == "get" ||
+       old == "copystring" || old == "copystring_t" || old == "decoder_copystring" || old == "decoder_copystring_t"
+    then some true
+    else if old == "unmarshalstring" || old == "unmarshalstring_t" || old == "getfromstring" then some false
+    else none
+  | _ => none
 
 def implOf (s : String) : StrImpl := if s == "vm" then .alg else .jit
 
